@@ -57,6 +57,7 @@ static void inproc_fail (OrcProgram * p, const char *target, const char *what)
   fprintf (out, "V %s|%s|%s\n", target, what, p->name ? p->name : "?");
 }
 
+static OrcProgram *hprog (int k);
 static void probe (OrcProgram * p, long idx)
 {
   int t;
@@ -82,6 +83,41 @@ static void probe (OrcProgram * p, long idx)
         if (hc2 != hc) inproc_fail (p, tnames[t], "recompile-after-reset-differs-code");
         if (ha2 != ha) inproc_fail (p, tnames[t], "recompile-after-reset-differs-listing");
       }
+    }
+    /* an executor that outlives a recompile: set up and run, then reset the program, let another program take the
+     * released code memory, compile again and run through the same executor object; the executor holds no code of its
+     * own, so the second run is the new code's */
+    if (t < 3 && ORC_COMPILE_RESULT_IS_SUCCESSFUL (r) && (idx % 5) == 0 && p->constant_n <= 0) {
+      VRunCfg c;
+      VArena A0, A1;
+      OrcExecutor ex, e0;
+      OrcProgram *other;
+      OrcCompileResult r2;
+      char msg[200];
+      int q, bad = 0;
+      memset (&c, 0, sizeof (c));
+      c.n = 37; c.m = p->is_2d ? 2 : 1; c.pchoice = 1;
+      vr_arena_alloc (&A0, p, &c); vr_arena_fill (&A0, &c);
+      vr_arena_alloc (&A1, p, &c); vr_arena_fill (&A1, &c);
+      vr_exec_setup (&ex, p, &A0, &c);
+      V_CONFINED (orc_executor_run (&ex), sig);
+      if (sig) bad = 1;
+      e0 = ex;
+      orc_program_reset (p);
+      other = hprog (1);
+      orc_program_compile_full (other, targets[t], orc_target_get_default_flags (targets[t]));
+      V_CONFINED (r2 = PROBE_COMPILE (p, t), sig);
+      if (!sig && !bad && ORC_COMPILE_RESULT_IS_SUCCESSFUL (r2)) {
+        for (q = 0; q < VR_NARR; q++) if (A1.sh.present[q]) ex.arrays[q] = A1.a[q].data;
+        ex.counter1 = ex.counter2 = ex.counter3 = 0x5a5a5a5a;
+        for (q = 0; q < 4; q++) ex.accumulators[q] = 0x5a5a5a5a;
+        V_CONFINED (orc_executor_run (&ex), sig);
+        if (sig) inproc_fail (p, tnames[t], "executor-kept-across-recompile-crashed");
+        else if (vr_compare (&A1, &A0, &c, &ex, &e0, msg, sizeof (msg))) inproc_fail (p, tnames[t], "executor-kept-across-recompile-differs");
+      }
+      orc_program_free (other);
+      vr_arena_free (&A0);
+      vr_arena_free (&A1);
     }
     /* position independence + repeatable runs on executable targets */
     if (t < 3 && ORC_COMPILE_RESULT_IS_SUCCESSFUL (r) && (idx % 3) == 0 && p->constant_n <= 0) {
